@@ -22,7 +22,7 @@ RULE = ('Exhaustive: every operand tuple over the 8 values for k=1..4 operands (
         'Randomised: N-D shapes with broadcasting for mv_*, leading dimensions for bp*, caller supplied out=. '
         'A case is one (operator, operand tuple); it is non-trivial iff the tuple contains a value outside {0,1}; '
         'distinct = distinct (operator, tuple).')
-ASSUMPTIONS = ["X and '-' are one class when comparing values (a raw copy may keep '-', operators produce X)",
+ASSUMPTIONS = ["X and '-' are one class when comparing the plain copy (buf) and in the sampled shape/out= parts; in the exhaustive part operator results are compared exactly (operators produce X for an unassigned operand)",
                'bit-parallel operands of one call have identical shapes; out= never aliases an input of mv_*',
                'the algebra model is the documented rule set, self-checked against the 4x64 tables printed in tests/test_logic.py']
 REACH = {'logic.mv_ops': ('logic.py', 123, 215), 'logic.bp_ops': ('logic.py', 283, 388)}
@@ -45,7 +45,7 @@ def conclude(agg):
     c = agg['counters']
     if c.get('selfcheck_bad', 0):
         r.append('algebra model disagrees with the tables published in tests/test_logic.py')
-    for k in ('tuples/k1', 'tuples/k2', 'tuples/k3', 'tuples/k4', 'out_calls', 'rand_shapes', 'tuples4/k4'):
+    for k in ('tuples/k1', 'tuples/k2', 'tuples/k3', 'tuples/k4', 'out_calls', 'rand_shapes', 'tuples4/k4', 'big_array_calls', 'sub_alphabet_arrays'):
         if c.get(k, 0) == 0:
             r.append(f'monitor counter {k} is zero')
     return r
@@ -88,8 +88,10 @@ def check_tuples(ctx, vals, k, planes, rng, lane_pad, tag=None):
         with ctx.guard('operator-raises', dict(case0, op=label)):
             results[label] = fn()
 
-    ops = ['not', 'buf'] if k == 1 else ['and', 'or', 'xor']
+    ops = ['not', 'buf', 'and', 'or', 'xor'] if k == 1 else ['and', 'or', 'xor']       # a single operand is a legal operand count of the bit-parallel AND/OR/XOR
     for op in ops:
+        # operators produce X for an unassigned operand; only the plain copy may keep '-'
+        cn = canon_arr if op == 'buf' else (lambda a_: np.asarray(a_))
         # reference
         if op == 'not':
             ref = np.array([R.v_not(t[0]) for t in lanes], dtype=np.uint8)
@@ -100,7 +102,7 @@ def check_tuples(ctx, vals, k, planes, rng, lane_pad, tag=None):
         if planes == 2:
             ref = ref & 3
         # code under test
-        if planes == 3 and op != 'buf':
+        if planes == 3 and op != 'buf' and not (k == 1 and op != 'not'):
             if op == 'not':
                 run(f'mv_{op}', lambda: lg.mv_not(cols[0]))
             elif k == 2:
@@ -130,7 +132,7 @@ def check_tuples(ctx, vals, k, planes, rng, lane_pad, tag=None):
             if got.shape != ref.shape:
                 ctx.violation('operator-shape', f'{label}: shape {got.shape} != {ref.shape}', dict(case0, op=label))
                 continue
-            bad = np.flatnonzero(canon_arr(got) != canon_arr(ref))
+            bad = np.flatnonzero(cn(got) != cn(ref))
             for b in bad[:3]:
                 ctx.violation('operator-vs-algebra',
                               f'{label}({v2s(lanes[b])}) = {R.CHARS[int(got[b])]} but the documented algebra gives {R.CHARS[int(ref[b])]} '
@@ -269,8 +271,41 @@ def make_out(shape, init, layout):
     return np.full(shape, init, dtype=np.uint8)
 
 
+def big_cases(ctx, rng, nrng):
+    """arrays well above 65536 elements (an implementation may process large arrays in blocks): every element, with and without out="""
+    lg = _logic()
+    tabs = {op: np.array([[f(a, b) for b in range(8)] for a in range(8)], dtype=np.uint8) for op, f in OPS.items()}
+    tnot = np.array([R.v_not(a) for a in range(8)], dtype=np.uint8)
+    for shape in ((65537,), (70001,), (300, 300), (2, 40000), (131073,)):
+        for op in ('not', 'and', 'or', 'xor'):
+            x1 = nrng.integers(0, 8, size=shape, dtype=np.uint8)
+            x2 = nrng.integers(0, 8, size=shape, dtype=np.uint8)
+            exp = tnot[x1] if op == 'not' else tabs[op][x1, x2]
+            case = {'kind': 'big', 'op': op, 'shape': list(shape)}
+            with ctx.guard('operator-raises', case):
+                for use_out in (False, True):
+                    o = np.full(shape, 0x55, dtype=np.uint8) if use_out else None
+                    ret = lg.mv_not(x1, out=o) if op == 'not' else getattr(lg, 'mv_' + op)(x1, x2, out=o)
+                    got = o if use_out else np.asarray(ret)
+                    ctx.count('big_array_calls')
+                    if got.shape != exp.shape or not np.array_equal(canon_arr(got), canon_arr(exp)):
+                        idx = np.argwhere(canon_arr(got) != canon_arr(exp))[:1].tolist() if got.shape == exp.shape else 'shape'
+                        ctx.violation('operator-vs-algebra', f'mv_{op} on an array of shape {shape} (out= {"given" if use_out else "not given"}): wrong at index {idx}', case)
+                        break
+                # bit-parallel form with that many lanes
+                planes = 3
+                bps = [to_bp(x.reshape(-1)[None], planes) for x in ((x1,) if op == 'not' else (x1, x2))]
+                o = np.full_like(bps[0], 0x5A)
+                getattr(lg, 'bp8v_' + op)(o, *bps)
+                got = from_bp(o, x1.size)[0]
+                if not np.array_equal(canon_arr(got), canon_arr(exp.reshape(-1))):
+                    ctx.violation('operator-vs-algebra', f'bp8v_{op} with {x1.size} lanes: wrong at lane {int(np.flatnonzero(canon_arr(got) != canon_arr(exp.reshape(-1)))[0])}', case)
+            ctx.case(case, True, key=case)
+
+
 def out_cases(ctx, rng, nrng, n):
     lg = _logic()
+    big_cases(ctx, rng, nrng)
     for i in range(n):
         op = rng.choice(['not', 'and', 'or', 'xor'])
         nd = rng.randint(0, 3) if i > 8 else (0 if i < 4 else 1)
